@@ -138,3 +138,68 @@ def enumerate_paths(sg, start, end_pred, avoid=None, max_paths=4000,
                 f2 = facts + [lab]
             stack.append((d, path + [d], f2, v2, val2))
     return out
+
+
+# ----------------------------------------------------------------------
+# control dependence (normal flow only)
+def control_facts(sg, site_id):
+    """Branch facts (pol, atom, func, cn) the node ``site_id`` is
+    transitively control-dependent on, considering normal control flow only
+    (exception edges of calls are ignored; an explicit raise ends a path).
+    A node T is control-dependent on a branch edge x -> d when every normal
+    path from d runs through T while the other side of the branch can finish
+    without it.  Independent of how the code is split into helpers: a test
+    both of whose outcomes lead to T (``if isdir(p): make_room(p)``) is not
+    a condition of T.  Validations (the other side of the branch only raises)
+    are not conditions and are not followed transitively."""
+    exits = set(sg.normal_exits())
+
+    def through(d, T):
+        """T is reachable from d and no normal exit is reachable from d
+        without passing T."""
+        if d == T:
+            return True
+        r_all = sg.reach([d], edge_ok=normal_edge)
+        if T not in r_all:
+            return False
+        r_avoid = sg.reach([d], avoid=lambda n: n.id == T,
+                           edge_ok=normal_edge)
+        return not (exits & set(r_avoid))
+
+    branches = []
+    for x in sg.nodes:
+        outs = [(d, lab) for d, lab in x.succ
+                if isinstance(lab, tuple) and len(lab) == 4 and
+                lab[0] in ('T', 'F')]
+        if len(outs) >= 2:
+            branches.append((x, outs))
+    found = {}
+    todo = [site_id]
+    seen_t = set()
+    while todo:
+        T = todo.pop()
+        if T in seen_t:
+            continue
+        seen_t.add(T)
+        for x, outs in branches:
+            if x.id == T:
+                continue
+            th = [(d, lab, through(d, T)) for d, lab in outs]
+            if any(t for _, _, t in th) and not all(t for _, _, t in th):
+                # a guard whose other side can only raise is a validation
+                # of arguments/state, not a condition of T
+                dead = True
+                for d, lab, t in th:
+                    if not t:
+                        r = sg.reach([d], edge_ok=normal_edge)
+                        if T in r or (exits & set(r)):
+                            dead = False
+                if dead:
+                    continue
+                for d, lab, t in th:
+                    if t:
+                        k = (x.id, lab[0])
+                        if k not in found:
+                            found[k] = lab
+                            todo.append(x.id)
+    return list(found.values())
